@@ -37,6 +37,21 @@ CLAIMED["C11"] = dict(
               "call-by-contract; obligations discharged by z3/cvc5; counterexamples replayed via go test -overlay",
     design="§3 C11")
 
+CLAIMED["C05"] = dict(
+    text="Proof of the reference accounting of snapshot transitions (banyand/internal/snapshot, the generic coordinator used by the "
+         "trace engine): with ghost reference counts on snapshots and a ghost 'currently published' snapshot per manager, "
+         "Commit publishes exactly once (idempotent), Rollback before a commit gives back the pin on the current snapshot and the "
+         "prepared next snapshot exactly once each and after a commit touches no reference count, and Release/reset gives back the "
+         "pin taken at creation exactly when the transition was committed. This is the 'released once, and only by its holder' half "
+         "of the property, for every state of the transition object.",
+    note=COMMON_NOTE + "Assumed: the Snapshot.IncRef/DecRef and Manager.ReplaceSnapshot interface contracts as documented in the "
+         "package. Narrow claim: measure/stream/trace/sidx snapshot and partWrapper reference counting, the introducer loops and the "
+         "publication fence are not decided (channels, goroutines and proto-typed packages); Transaction (slices of closures) is not "
+         "yet under contract.",
+    technique="contract-based deductive verification with ghost reference counts: VCs from the typed Go AST (govc), call-by-contract on "
+              "interface methods, obligations discharged by z3/cvc5",
+    design="§3 C05")
+
 NOT_APPLICABLE = {
     "C15": "equivalence of two whole query pipelines over generated proto types: translation validation, no function contract states it (DESIGN.md §5)",
     "C17": "whole-cluster equivalence and gRPC/proto-typed transfer code with no type information in this tree (DESIGN.md §5)",
